@@ -5,4 +5,6 @@ WORK="$1"; HERE="$(cd "$(dirname "$0")" && pwd)"; . "$HERE/lib.sh"
 build_rewriter "$WORK"
 mkdir -p "$WORK/ov"
 "$WORK/verif-rewrite" -out "$WORK/ov" -repo "${VERIF_REPO:-/repo}" -shims "$HERE/../shim" -maprange compiler,compiler/ast,compiler/ssa,compiler/circuits,compiler/utils,compiler/mpa,types,circuit,env >&2
+# the repository's own two-party application, built unmodified from the current tree (app-level session histories)
+( cd "${VERIF_REPO:-/repo}" && go build -o "$WORK/garbled-app" ./apps/garbled ) >&2 || echo "prep c08: apps/garbled does not build; app-level histories skipped" >&2
 echo "-overlay $WORK/ov/overlay.json"
